@@ -373,14 +373,19 @@ SPEC["C06"] = {
          with requirements that cover them, the text FiltersSet.tosieve writes -- require line, blank line, the
          marker comments, the filters -- is ACCEPTED by the parser and parses to the require command followed by
          the filters in order, each an `if` carrying its marker lines, `if false` exactly for the disabled ones
-         (C06_set_accepted).  Unbounded over values, list lengths, numbers of conditions/actions/filters.
+         (C06_set_accepted).  Unbounded over values, list lengths, numbers of conditions/actions/filters;
+     (e) histories (factory/BuildHistory.v): every state reached from the empty set by addfilter / updatefilter with
+         documented definitions and replacefilter (with a tree the set built) / removefilter / enablefilter /
+         disablefilter / movefilter satisfies an invariant (representable structure, every tree good, requirements
+         without duplicates that cover every tree ever built) under which no documented operation raises and
+         the rendered text is accepted (C06_history_runs, C06_history_accepted).
    Hypotheses on values (each shown necessary by a generated case or a known finding): strings do not start with
    a quote character (outside the claim), are valid UTF-8, lists are not empty, a header name given as one string
    is not a condition keyword and does not start with "not" (the factory would take it for a negation -- recorded
    in DESIGN.md), a string argument of an action does not start with ':'; marker lines contain no line feed.
    Not proved: keep/setflag/addflag/removeflag (definitions outside wf_def: known findings of C01/C03), tag orders
    other than the documented one (covered by the differential run and the strict validator).""",
-    "imports": TEXT_IMPORTS + "From SV Require Import Tables ArgCheck ArgSpec Machine Printer CompleteFacts CompleteTree RenderFacts PrintTree GenTables Ops Build BuildFacts BuildSet.\n",
+    "imports": TEXT_IMPORTS + "From SV Require Import Tables ArgCheck ArgSpec Machine Printer CompleteFacts CompleteTree RenderFacts PrintTree GenTables Ops Build BuildFacts BuildSet Load LoadFacts BuildHistory.\n",
     "theorems": [
         ("C06_condition_built", "BuildFacts.build_cond", "every documented condition form: the test __create_filter builds stands for [ctest d]; negation flag and requirements as stated"),
         ("C06_condition_legal", "BuildFacts.cond_wf", "... and that test is legal wherever its extensions are loaded"),
@@ -391,6 +396,8 @@ SPEC["C06"] = {
         ("C06_requires_grow", "BuildSet.freqs_grows", "... and nothing recorded earlier is lost"),
         ("C06_disabled_wrapper", "BuildSet.wrap_good", "disablefilter's `if false { ... }` around a good filter is good"),
         ("C06_set_accepted", "BuildSet.factory_set_accepted", "the text of a whole set is accepted and parses to the filters in order with their marker lines"),
+        ("C06_history_runs", "BuildHistory.history_runs", "histories: from every set reached by the editing operations (addfilter/updatefilter with documented definitions; replace/remove/enable/disable/move) the next documented operation does not raise"),
+        ("C06_history_accepted", "BuildHistory.history_reload", "... and the text of every reachable non-empty set is accepted by the parser (and loads back as the same set: C11)"),
         ("C06_example_hypotheses", "BuildSet.ex_ok", "non-vacuity: a definition with ten condition forms and four action forms over hostile values (quotes, backslashes, commas, brackets, script fragments, a line feed, non-ASCII) meets the hypotheses"),
         ("C06_example_pipeline", "BuildSet.ex_pipeline", "... and, evaluated on the model: added, disabled, rendered, parsed -- require, then the disabled filter with its marker line"),
         ("C06_value_is_one_string_token", "TextFacts.next_token_quote",
@@ -427,7 +434,10 @@ SPEC["C11"] = {
          parsed commands returns the SAME requirements and the filters IN THE SAME ORDER with the same names,
          descriptions and enabled flags -- unbounded over values, numbers of filters, conditions and actions;
          the marker comments are attached to the right filter because the parser theorem
-         (CompleteTree.parse_commented_script through PrintTree.set_parses) says so for every commented script.
+         (CompleteTree.parse_commented_script through PrintTree.set_parses) says so for every commented script;
+     (c) C11_history_reload (factory/BuildHistory.v): the same for EVERY set reached from the empty set by a
+         history of addfilter / updatefilter (documented definitions) / replacefilter / removefilter /
+         enablefilter / disablefilter / movefilter -- the quantifier of the property.
    Hypotheses, besides those of C06: markers start with a non-blank byte, names/descriptions do not end in a
    blank, do not contain their marker, and a name line cannot be taken for a description line or vice versa
    (prefix conditions; all marker pairs used by callers in the harness satisfy them); the requirements have no
@@ -436,8 +446,9 @@ SPEC["C11"] = {
    filters render to scripts with the same trees and that rendering the reloaded set is a fixed point rests on
    C04 (print_parse_general) and is evaluated on the implementation over generated histories, names,
    descriptions and marker prefixes.""",
-    "imports": TEXT_IMPORTS + "From SV Require Import Tables ArgCheck ArgSpec Machine Printer CompleteFacts CompleteTree RenderFacts PrintTree GenTables Ops Build BuildFacts BuildSet Load LoadFacts.\n",
+    "imports": TEXT_IMPORTS + "From SV Require Import Tables ArgCheck ArgSpec Machine Printer CompleteFacts CompleteTree RenderFacts PrintTree GenTables Ops Build BuildFacts BuildSet Load LoadFacts BuildHistory.\n",
     "theorems": [
+        ("C11_history_reload", "BuildHistory.history_reload", "for every set reached by a history of editing operations with documented definitions: the saved text is accepted and from_parser_result returns the same requirements and the filters in order with the same names, descriptions and enabled flags"),
         ("C11_reload_same", "LoadFacts.reload_same", "save, parse, load: same requirements, same names in the same order, same descriptions, same enabled flags"),
         ("C11_comments_attached", "PrintTree.set_parses", "every commented script laid out as FiltersSet.tosieve does parses to its commands with each comment attached to the command it precedes"),
         ("C11_example_reload", "LoadFacts.ex_reload", "non-vacuity: the C06 example definition, once enabled and once disabled with a description and a non-ASCII name"),
